@@ -6,7 +6,7 @@ claimed check (quick tier, seed 0) with VERIF_REPO=<worktree>; a check that exit
 Evidence of these runs goes to evidence/.scratch (VERIF_REPO set), never to the committed evidence files."""
 import glob, json, os, subprocess, sys
 from concurrent.futures import ThreadPoolExecutor
-d = sys.argv[1]
+d = os.path.abspath(sys.argv[1])
 jobs = int(sys.argv[sys.argv.index("--jobs") + 1]) if "--jobs" in sys.argv else 6
 claimed = json.load(open("/verif/tools/claimed.json"))
 if "--only" in sys.argv:
